@@ -261,9 +261,14 @@ fn mh_gibbs_case(ctx: &Ctx, rep: &mut Report, case: u64, g: &mut Sm64) {
             let sig: &str = $sig;
             hook::proto_enable(8);
             hook::proto_jitter(seed, if seed % 3 == 0 { 1500 } else { 0 });
+            let warm = (seed % 4) as usize; // 0: fresh samplers; otherwise both twins have already been run
             let r = guard(|| {
                 let mut a = $mk;
                 let mut b = $mk;
+                if warm > 0 {
+                    let _ = a.run(warm, 1).unwrap();
+                    let _ = b.run(warm, 1).unwrap();
+                }
                 let plain = a.run(n_collect, n_discard).unwrap();
                 let (prog, stats) = b.run_progress(n_collect, n_discard).map_err(|e| format!("{e}")).unwrap();
                 let want = RunStats::from(prog.view());
@@ -347,15 +352,24 @@ where
     let sig = format!("{name}::run_progress T={} backend={bname}", T::NAME);
     hook::proto_enable(8);
     let r = guard(|| {
+        let warm = (seed % 3) as usize; // 0: fresh samplers; otherwise both twins have already been run
         if nuts {
             let mut a = NUTS::<T, B, DiagGauss>::new(target.clone(), inits.clone(), T::of(0.8)).set_seed(seed);
             let mut b = NUTS::<T, B, DiagGauss>::new(target.clone(), inits.clone(), T::of(0.8)).set_seed(seed);
+            if warm > 0 {
+                let _ = a.run(warm + 1, 3);
+                let _ = b.run(warm + 1, 3);
+            }
             let plain = t3(&a.run(n_collect + 1, n_discard));
             let (prog, stats) = b.run_progress(n_collect, n_discard).map_err(|e| format!("{e}")).unwrap();
             (plain, t3(&prog), stats)
         } else {
             let mut a = HMC::<T, B, DiagGauss>::new(target.clone(), inits.clone(), T::of(0.2), 3).set_seed(seed);
             let mut b = HMC::<T, B, DiagGauss>::new(target.clone(), inits.clone(), T::of(0.2), 3).set_seed(seed);
+            if warm > 0 {
+                let _ = a.run(warm, 1);
+                let _ = b.run(warm, 1);
+            }
             let plain = t3(&a.run(n_collect, n_discard));
             let (prog, stats) = b.run_progress(n_collect, n_discard).map_err(|e| format!("{e}")).unwrap();
             (plain, t3(&prog), stats)
